@@ -30,6 +30,9 @@ var c16Lines = []string{
 	"// c ; not a statement",
 	"",
 	"U | project `a;b` = 'p;q' ; let",
+	"let x = 1; let w = x + 1;",
+	"T | take w;",
+	"V | where u == \"http://a\"; W | count",
 }
 
 // cliModel is the reference for the tool: it sees the script as text, splits it
@@ -208,7 +211,7 @@ func c16Compare(w *run.Worker, input, channel string, got cliRun, outFile *strin
 }
 
 func c16Main(r *run.Runner) {
-	r.Rule = "explicit-state exploration of the command-line tool: every history of <= k input lines over a 14-line alphabet (accepted / rejected / redefined lets, statements spread over lines, two statements per line, lexical errors, comments, blank lines, semicolons inside strings and names), with and without a final newline, is fed to the real pql binary built from /repo; " +
+	r.Rule = "explicit-state exploration of the command-line tool: every history of <= k input lines over a 17-line alphabet (accepted / rejected / redefined lets, statements spread over lines, two statements per line, lexical errors, comments, blank lines, semicolons inside strings and names), with and without a final newline, is fed to the real pql binary built from /repo; " +
 		"standard output, exit status and diagnostics are compared with a model that splits the text with the reference tokenizer and calls the library per statement. Channels: stdin for every history; one file, two files split at every line boundary, -o file and CRLF line ends for every history of <= k-1 lines. Faults: a 70 000-byte line at every position, a directory and a missing file as inputs. " +
 		"states = distinct histories, transitions = lines fed, traces validated = runs of the real binary compared with the model"
 	r.Assume = []string{"the model calls pql.Compile per statement (the library's own correctness is the subject of the other properties)",
@@ -377,6 +380,14 @@ func c16Main(r *run.Runner) {
 		os.MkdirAll(dir, 0o755)
 		w.Begin("cli-fault:directory", first)
 		c16Fault(w, first, e.run(w, "", f1, dir), "directory-input", first+" then a directory")
+		// an unreadable input that is not the last one
+		f2 := filepath.Join(e.dir, "in2.pql")
+		os.WriteFile(f2, []byte("T | count;\n"), 0o644)
+		w.Begin("cli-fault:directory-first", first)
+		c16FaultLayout(w, "", e.run(w, "", dir, f1), "directory-input", "a directory, then "+first, "first:"+first)
+		w.Begin("cli-fault:directory-middle", first)
+		c16FaultLayout(w, first, e.run(w, "", f1, dir, f2), "directory-input", first+" then a directory, then another file", "middle")
+		w.Count("traces_validated", 2)
 		w.Begin("cli-fault:directory-only", "")
 		c16Fault(w, "", e.run(w, "", dir), "directory-input", "a directory as the only input")
 		w.Begin("cli-fault:missing-file", first)
@@ -395,19 +406,23 @@ func c16Main(r *run.Runner) {
 // c16Fault: when input cannot be read completely the exit status is non-zero, a
 // diagnostic is printed, and everything terminated before the fault is still compiled.
 func c16Fault(w *run.Worker, before string, got cliRun, kind, desc string) {
+	c16FaultLayout(w, before, got, kind, desc, "")
+}
+
+func c16FaultLayout(w *run.Worker, before string, got cliRun, kind, desc, layout string) {
 	m := cliModel(normalizeLines(before))
 	// only terminated statements are certain to have been processed
 	mt := cliModel(normalizeLines(terminatedPrefix(before)))
 	if got.exit == 0 {
-		w.Fail("cli:fault:"+kind+":exit-zero", before, fmt.Sprintf("%s: input could not be read completely but the exit status is 0\nstdout %q\nstderr %q", desc, got.stdout, got.stderr), map[string]any{"fault": kind})
+		w.Fail("cli:fault:"+kind+":exit-zero", before, fmt.Sprintf("%s: input could not be read completely but the exit status is 0\nstdout %q\nstderr %q", desc, got.stdout, got.stderr), map[string]any{"fault": kind, "layout": layout})
 		return
 	}
 	if strings.TrimSpace(got.stderr) == "" {
-		w.Fail("cli:fault:"+kind+":silent", before, fmt.Sprintf("%s: no diagnostic on standard error", desc), map[string]any{"fault": kind})
+		w.Fail("cli:fault:"+kind+":silent", before, fmt.Sprintf("%s: no diagnostic on standard error", desc), map[string]any{"fault": kind, "layout": layout})
 		return
 	}
 	if got.stdout != m.stdout && got.stdout != mt.stdout {
-		w.Fail("cli:fault:"+kind+":stdout", before, fmt.Sprintf("%s: output for the statements before the fault differs\nwant %q (or %q)\ngot  %q", desc, mt.stdout, m.stdout, got.stdout), map[string]any{"fault": kind})
+		w.Fail("cli:fault:"+kind+":stdout", before, fmt.Sprintf("%s: output for the statements before the fault differs\nwant %q (or %q)\ngot  %q", desc, mt.stdout, m.stdout, got.stdout), map[string]any{"fault": kind, "layout": layout})
 	}
 }
 
@@ -440,8 +455,20 @@ func c16Replay(w *run.Worker, v *run.Viol) {
 			dir := filepath.Join(scratch, "adir")
 			os.MkdirAll(dir, 0o755)
 			f1 := filepath.Join(scratch, "in1.pql")
-			os.WriteFile(f1, []byte(v.Source), 0o644)
-			c16Fault(w, v.Source, e.run(w, "", f1, dir), fk, "replay")
+			f2 := filepath.Join(scratch, "in2.pql")
+			os.WriteFile(f2, []byte("T | count;\n"), 0o644)
+			layout, _ := v.Extra["layout"].(string)
+			switch {
+			case strings.HasPrefix(layout, "first:"):
+				os.WriteFile(f1, []byte(strings.TrimPrefix(layout, "first:")), 0o644)
+				c16FaultLayout(w, "", e.run(w, "", dir, f1), fk, "replay", layout)
+			case layout == "middle":
+				os.WriteFile(f1, []byte(v.Source), 0o644)
+				c16FaultLayout(w, v.Source, e.run(w, "", f1, dir, f2), fk, "replay", layout)
+			default:
+				os.WriteFile(f1, []byte(v.Source), 0o644)
+				c16Fault(w, v.Source, e.run(w, "", f1, dir), fk, "replay")
+			}
 		}
 		return
 	}
